@@ -375,11 +375,13 @@ func (a *App) clean(spokfile *file.SpokFile) error {
 			if !ok {
 				return fmt.Errorf("Named output %s is not defined", namedOutput)
 			}
-			resolved, err := filepath.Abs(actual)
-			if err != nil {
-				return err
+			// Like every other path in a spokfile a relative one is relative to the spokfile,
+			// not to wherever spok happens to have been started from
+			resolved := actual
+			if !filepath.IsAbs(resolved) {
+				resolved = filepath.Join(spokfile.Dir, resolved)
 			}
-			_, err = os.Stat(resolved)
+			_, err := os.Stat(resolved)
 			if err != nil {
 				if !errors.Is(err, fs.ErrNotExist) {
 					// If it doesn't exist we can ignore the error
